@@ -11,6 +11,8 @@ Model: `GS.ReqMgr` (GS/Model/ReqMgr.lean).  `processResponses q rs` is the fold 
 `GS.Generated.ReqPipeline.stages`, which translate/reqpipeline regenerates from
 requestmanager/server.go on every check; the theorems below are proved for *every* stage list that
 satisfies `Guarded` and then instantiated with the generated one (`pipeline_guarded`, by `decide`).
+The filter itself is not hand-written either: `stageOne .filterForPeer` evaluates the comparison term
+`ReqPipeline.filterCond` extracted from `filterResponsesForPeer` (`filter_compares_peer`, by `decide`).
 Re-ordering the stages in the Go source so that the hooks (or anything else) run before the peer
 filter makes `pipeline_guarded` false and this file stops compiling.
 
@@ -41,6 +43,20 @@ instance (t : Table) (q : Peer) (x : Resp) : Decidable (Foreign t q x) := by
     (this is the statement that depends on the Go source) -/
 theorem pipeline_guarded : Guarded ReqPipeline.stages = true := by decide
 
+/-- the comparison inside the peer filter, as extracted from the source, is "entry's peer ≠ sender"
+    (this too depends on the Go source: comparing anything else changes the generated term) -/
+theorem filter_compares_peer : GoodFilter ReqPipeline.filterCond = true := by decide
+
+/-- what the filter keeps was sent to the sender -/
+theorem keeps_peer (t : Table) (q : Peer) (x : Resp) (h : keeps t q x = true) :
+    ∃ e, t.get x.id = some e ∧ e.peer = q := by
+  unfold keeps at h
+  split at h
+  · rename_i e he
+    rw [filterKeeps_good _ filter_compares_peer] at h
+    exact ⟨e, he, by simpa using h⟩
+  · cases h
+
 /-! ## single step -/
 
 /-- General form of the step theorem: with a guarded pipeline, a message from `q` — whatever
@@ -60,10 +76,10 @@ theorem noninterference_of_guarded (stages : List StageOp) (hg : Guarded stages 
     have hkept : ∀ x ∈ rs.filter (keeps t q), x.id ≠ r := by
       intro x hx hid
       have hk : keeps t q x = true := (List.mem_filter.mp hx).2
-      unfold keeps at hk
-      rw [hid, hr] at hk
-      simp at hk
-      exact hq hk.symm
+      obtain ⟨e, he, hpe⟩ := keeps_peer t q x hk
+      rw [hid, hr] at he
+      cases he
+      exact hq hpe.symm
     obtain ⟨f1, f2⟩ := runStages_frame rest q r t (rs.filter (keeps t q)) hkept
     refine ⟨by rw [f1, hr], ?_⟩
     intro ev hev
